@@ -4,6 +4,8 @@
        Lock | Unlock            explicit lock()/unlock() on the class mutex or on a unique_lock over it
                                 (a condition-variable wait is Unlock followed by Lock)
        Drop                  destructor of a lock_guard/unique_lock: unlocks iff it owns the lock
+       Gain                     (owner-discipline skeletons of the lock-free classes only) an atomic operation after which
+                                the thread is in owner context, whatever it was before
        Rd f | Wr f              access to data member number f of the class
        Call g                   call of method number g of the same class on `this`
        Skip | End
@@ -15,7 +17,7 @@ Require Coq.Strings.String.
 Notation string := String.string.
 
 Inductive lstate := Held | Free | Any.
-Inductive ev := Lock | Unlock | Drop | Rd (f : nat) | Wr (f : nat) | Call (g : nat) | Skip | End.
+Inductive ev := Lock | Unlock | Drop | Gain | Rd (f : nat) | Wr (f : nat) | Call (g : nat) | Skip | End.
 
 Record method_sk := { m_name : string; m_public : bool; m_pre : bool; m_post : bool;
                       m_nodes : list (ev * list nat); m_annot : list lstate }.
@@ -35,6 +37,7 @@ Definition post_of (ms : list method_sk) (m : method_sk) (e : ev) (h : lstate) :
   | Lock => match h with Free => Some Held | _ => None end
   | Unlock => match h with Held => Some Free | _ => None end
   | Drop => Some Free
+  | Gain => Some Held
   | Rd _ | Wr _ => match h with Held => Some Held | _ => None end
   | Call g => match nth_error ms g with
               | Some mg => if lstate_eqb h (of_bool (m_pre mg)) then Some (of_bool (m_post mg)) else None
@@ -104,6 +107,9 @@ Definition step (ms : list method_sk) (c : cfg) (ch : nat * nat) : cfg :=
                             | None => c end
                 | Drop => Cfg (match holder c with Some u => if Nat.eqb u t then None else Some u | None => None end)
                                  (set_nth (stacks c) t moved)
+                | Gain => match holder c with                                  (* owner-discipline skeletons: becomes the owner *)
+                          | None => Cfg (Some t) (set_nth (stacks c) t moved)
+                          | Some u => if Nat.eqb u t then Cfg (Some t) (set_nth (stacks c) t moved) else c end
                 | Call g => Cfg (holder c) (set_nth (stacks c) t ((g, 0) :: moved))
                 | _ => Cfg (holder c) (set_nth (stacks c) t moved)
                 end
